@@ -147,6 +147,16 @@ void c_unfulfilled(void)
   __CPROVER_assert(n2 >= 1, "[C04] POST unfulfilled.the_report_gives_the_required_count");
   __CPROVER_assert(0, "REACH! c_unfulfilled");
 }
+/* C04: "when an expectation's lifetime ends - scope exit ..." also when the scope is left by an exception */
+void c_unwound(void)
+{
+  SMALL(x0); struct OBS o; g_tracer_obj_ptr = 0;
+  C04_UNW(x0, &o);
+  __CPROVER_assert(o.ret == 1 && o.x == 1 && vp_exc == 0 && !vp_terminated, "[C04,C15] POST unwound.the_fatal_report_throws_and_the_block_is_left_through_the_handler");
+  __CPROVER_assert(vp_rep_n == 2 && vp_rep[0].sev == 0, "[C04,C01,C15] POST unwound.first_the_fatal_no_match_report_for_the_other_function");
+  __CPROVER_assert(vp_rep_n == 2 && vp_rep[1].sev == 1 && vp_rep[1].line > 0, "[C04,C15] POST unwound.the_unfulfilled_expectation_is_reported_once_non_fatally_while_the_scope_is_unwound");
+  __CPROVER_assert(0, "REACH! c_unwound");
+}
 /* C08: THROW */
 void c_throw(void)
 {
